@@ -1,6 +1,7 @@
 package main
 
 import (
+	"os"
 	"go/types"
 	"fmt"
 	"sort"
@@ -173,10 +174,11 @@ func init() {
 		r.floor("R3", 1)
 	}, checkC08)
 	register("C09", func(r *Report) {
-		r.Explanation = "Same transition relation as C08. Decided: (R1) WILLTOPICREQ is sent at the start of a will exchange (after AUTH when enabled), WILLMSGREQ only on a WILLTOPIC edge, the MQTT CONNECT of a will exchange only on a WILLMSG edge, no WILL*REQ is reachable without the will flag, and after an edge that sent the MQTT CONNECT no edge reachable in the same transaction sends another one (at most one CONNECT per exchange for all packet orders); (R2) the CONNECT's will/keep-alive/client-id/clean-session fields originate from the corresponding fields of WILLTOPIC, WILLMSG and CONNECT; (R3) the client's CONNACK is accepted exactly for broker return code 0, congestion for every other code, 'not supported' with no transaction stored for a zero keep-alive. Not decided: timeouts (C10)."
+		r.Explanation = "Same transition relation as C08. Decided: (R1) WILLTOPICREQ is sent at the start of a will exchange (after AUTH when enabled), WILLMSGREQ only on a WILLTOPIC edge, the MQTT CONNECT of a will exchange only on a WILLMSG edge, no WILL*REQ is reachable without the will flag, and after an edge that sent the MQTT CONNECT no edge reachable in the same transaction sends another one (at most one CONNECT per exchange for all packet orders); (R2) the CONNECT's will/keep-alive/client-id/clean-session fields originate from the corresponding fields of WILLTOPIC, WILLMSG and CONNECT; (R3) the client's CONNACK is accepted exactly for broker return code 0, congestion for every other code, 'not supported' with no transaction stored for a zero keep-alive; (R4) a CONNECT with a usable keep-alive from a client that is not sleeping (disconnected or active; with or without a pending connect exchange; with or without will) always starts a NEW exchange and is never answered by the handler itself with CONNACK 'accepted'. Not decided: timeouts (C10)."
 		r.floor("R1", 4)
 		r.floor("R2", 6)
 		r.floor("R3", 3)
+		r.floor("R4", 8)
 	}, checkC09)
 }
 
@@ -596,6 +598,48 @@ func checkC09(c *Ctx, r *Report) {
 			}
 			if okc {
 				r.ok("R3", key, c.pos(m.mqDisp.Pos()), firstOutcome(outs))
+			}
+		}
+	}
+	// R4: every CONNECT with a usable keep-alive from a client that is not sleeping starts a NEW connect exchange
+	// (whatever exchange is pending): the handler neither answers it itself with CONNACK 'accepted' (the broker
+	// has not accepted anything) nor continues an old exchange whose MQTT CONNECT was built from another packet.
+	for _, st := range []int64{stDisconnected, stActive} {
+		for _, tx := range []string{"none", c.gwConnectTx()} {
+			for _, will := range []int64{0, 1} {
+				cells := map[string]aval{"state": kint(st), "type:sn": kstr("*packets1.Connect"),
+					"f:packets1.Connect.Duration": kint(60), "f:packets1.Connect.ProtocolID": kint(1), "f:packets1.Connect.Will": kint(will), "type:tx": kstr(tx)}
+				outs, _ := m.run(m.snDisp, cells)
+				txn := "no-pending-exchange"
+				if tx != "none" {
+					txn = "pending-connect-exchange"
+				}
+				key := fmt.Sprintf("connect-starts-exchange/%s/%s/will=%d", stateNames[st], txn, will)
+				okc := len(outs) > 0
+				for _, o := range outs {
+					last := ""
+					if len(o.Ret) > 0 {
+						last = o.Ret[len(o.Ret)-1]
+					}
+					if os.Getenv("BISQ_DEBUG") != "" {
+						fmt.Println("C09-R4", key, strings.Join(o.Events, " ; "), "=>", o.Ret)
+					}
+					if hasEventPrefix(o, "sn:*packets1.Connack{NewConnack(0)}") {
+						okc = false
+						r.bad("R4", key, pos, "the handler answers a CONNECT with CONNACK 'accepted' itself although the client is not returning from sleep: the CONNACK is 'accepted' without the broker having accepted this CONNECT: "+strings.Join(o.Events, " ; "))
+						break
+					}
+					if !hasEventPrefix(o, "store.StoreByType") && (last == "nil" || strings.HasPrefix(last, "result:")) {
+						okc = false
+						r.bad("R4", key, pos, "a CONNECT is handled successfully without starting a new connect exchange: the exchange that continues (and the MQTT CONNECT it sends) was built from an earlier CONNECT packet: "+strings.Join(o.Events, " ; "))
+						break
+					}
+				}
+				if len(outs) == 0 {
+					r.undecided("R4", key, pos, "CONNECT case not explored")
+				} else if okc {
+					r.ok("R4", key, pos, firstOutcome(outs))
+				}
 			}
 		}
 	}
